@@ -70,6 +70,22 @@ pub const BODIES: &[&str] = &[
     "local string = { rep = mark }\nlocal t = { debug.profilebegin('x'), debug.profileend() }\nlocal s = `value {t}`\nmark({M}, s)\nreturn t\n",
     // 32: nested tables and long lines for column spans
     "local config = { alpha = { beta = { gamma = { delta = 'a very long string literal that will not fit on a short line' } } }, list = { 1, 2, 3, 4, 5, 6, 7, 8, 9, 10, 11, 12 } }\nmark({M}, config)\nreturn config\n",
+    // 33: several exported types, generics, type packs (bundling renames and hoists them)
+    "export type Id = number\nexport type Pair<K, V> = { key: K, value: V }\nexport type Callback = (Id, ...string) -> ()\ntype Private = { Pair<Id, string> }\nlocal function make(id: Id): Pair<Id, string>\n\treturn { key = id, value = tostring(id) }\nend\nmark({M})\nreturn { make = make }\n",
+    // 34: uses globals whose names look like generated identifiers (rename_variables avoid set)
+    "local first, second, third = a, b, c\nlocal function f(x, y, z)\n\treturn x + a, y + b, z + c + d + e\nend\nmark({M}, first, second, third, f(1, 2, 3))\nreturn f\n",
+    // 35: several asserts / profile calls in expression position, select and debug shadowed
+    "local select, debug = mark, { profilebegin = mark, profileend = mark }\nlocal v1 = assert(one())\nlocal v2, v3 = assert(two()), assert(three(), 'msg')\nlocal p = { debug.profilebegin('a'), debug.profileend() }\nmark({M}, v1, v2, v3, p, select)\nreturn v1\n",
+    // 36: many locals to group / declare nil / leave unused
+    "local a1\nlocal a2 = nil\nlocal a3, a4 = 1\nlocal a5 = a3\nlocal a6 = fn()\nlocal a7 = 7\nlocal unused1, unused2 = 1, 2\nmark({M}, a1, a2, a3, a4, a5, a6, a7)\nreturn a5\n",
+    // 37: several compound assignments, interpolations, floor divisions and if-expressions
+    "local x, y = 10, 3\nx += y\ny -= 1\nx //= y\nt.field ..= `{x}-{y}`\nt[key()] *= if x > y then x // 2 else y // 2\nlocal s = `a{x}b{y}c` .. `{`nested {x}`}`\nmark({M}, x, y, s)\nreturn s\n",
+    // 38: several continues and nested loops
+    "local out = {}\nfor i = 1, 3 do\n\tfor j = 1, 3 do\n\t\tif j == 2 then continue end\n\t\trepeat\n\t\t\tif i == j then continue end\n\t\t\tout[#out + 1] = i * j\n\t\tuntil true\n\tend\n\tif i == 2 then continue end\nend\nmark({M}, out)\nreturn out\n",
+    // 39: method definitions and calls on several objects, index-to-field candidates
+    "local A, B = {}, {}\nfunction A:one() return self['x'] end\nfunction B:two(n) return self['y'] + n end\nfunction A.B_link(...) return B:two(...) end\nlocal r = A:one() + B:two(1) + ('str'):len()\nmark({M}, r, A['B_link'](B, 2))\nreturn A\n",
+    // 40: globals DEBUG, _G.DEBUG and a second injected-looking global
+    "if DEBUG and VERSION then\n\tprint(_G.VERSION, _G['DEBUG'])\nend\nlocal function f(DEBUG)\n\treturn DEBUG or VERSION\nend\nmark({M}, f(false))\nreturn VERSION\n",
 ];
 
 /// Bodies that do not parse (content faults).
